@@ -26,6 +26,7 @@ __TAPKEE_IMPLEMENTATION(Isomap)
         DenseSymmetricMatrix shortest_distances_matrix =
             compute_shortest_distances_matrix(begin, end, neighbors, distance);
         shortest_distances_matrix = shortest_distances_matrix.array().square();
+        shortest_distances_matrix = ((shortest_distances_matrix + shortest_distances_matrix.transpose()) / 2.0).eval();
         centerMatrix(shortest_distances_matrix);
         shortest_distances_matrix.array() *= -0.5;
 
